@@ -947,6 +947,57 @@ func cmdC05Free(args []string) {
 			os.Chdir(cwd)
 		}
 	}
+	// one compiled template whose include tag computes its name: many executions at once, each with a name of its own (in a
+	// loop body the same tag serves several names within one execution); every execution renders the templates it named
+	{
+		files := map[string]string{"/n0": "zero{{ sv }}", "/n1": "one{{ sv }}{% include \"/n0\" %}", "/n2": "two{% for i in sv %}{{ i }}{% endfor %}"}
+		set := pongo2.NewSet("c05n", newMemLoader("c05n", files))
+		srcs := []string{"<{% include nm %}|{% include nm %}>", "<{% for nm in nms %}{% include nm %};{% endfor %}{% include nm if_exists %}>"}
+		for _, src := range srcs {
+			tpl, o := compileString(set, src)
+			if o.class() != "ok" {
+				fatal("lazy names program does not compile", o.Err)
+			}
+			mk := func(g int) pongo2.Context {
+				n := []string{"/n0", "/n1", "/n2"}
+				return pongo2.Context{"nm": n[g%3], "nms": []interface{}{n[(g+1)%3], n[g%3], n[(g+2)%3]}, "sv": "s" + strconv.Itoa(g%3)}
+			}
+			var wg sync.WaitGroup
+			var mu sync.Mutex
+			got := map[int]map[string]int{}
+			for g := 0; g < k; g++ {
+				wg.Add(1)
+				go func(g int) {
+					defer wg.Done()
+					mine := map[string]int{}
+					for it := 0; it < 400; it++ {
+						o := execute(tpl, mk(g))
+						mine[o.Out+"|"+firstLine(o.Err+o.Panic)]++
+					}
+					mu.Lock()
+					for res, n := range mine {
+						if got[g%3] == nil {
+							got[g%3] = map[string]int{}
+						}
+						got[g%3][res] += n
+					}
+					mu.Unlock()
+				}(g)
+			}
+			wg.Wait()
+			rep.Checked++
+			for g := 0; g < 3; g++ {
+				alone := execute(tpl, mk(g))
+				want := alone.Out + "|" + firstLine(alone.Err+alone.Panic)
+				for res, n := range got[g] {
+					if res != want {
+						rep.viol(fmt.Sprintf("concurrent execution: program lazy-names %q with %d goroutines naming different templates: %d executions with name %v returned %q, alone it returns %q",
+							src, k, n, mk(g)["nm"], res, want), map[string]interface{}{"cmd": "c05-free", "program": src})
+					}
+				}
+			}
+		}
+	}
 	for _, p := range progs {
 		files := map[string]string{"/lazy": "L{{ sv }}{% cycle 1 2 %}", "/main": p.Src}
 		for n, c := range p.Files {
